@@ -18,7 +18,7 @@ import AGH.Model.Auth
 namespace AGH.C12
 
 inductive Op where
-  | login (addr : Nat) (good : Bool) (user : Nat)
+  | login (req : Req) (good : Bool) (user : Nat)
   | request (tok : Nat)
   | logout (tok : Nat)
   | restart
@@ -32,7 +32,7 @@ inductive Obs where
 
 /-- The model's reaction to one operation at time `now` (ns). -/
 def step (st : St) (now : Nat) : Op → Obs × St
-  | .login addr good user => let r := login st now addr good user; (.login r.1, r.2)
+  | .login req good user => let r := handleLogin st now req good user; (.login r.1, r.2)
   | .request tok => let r := checkSession st now tok; (.auth (r.1 == .ok), r.2)
   | .logout tok => (.done, logout st tok)
   | .restart => (.done, restart st now)
@@ -81,9 +81,16 @@ def nowS (now : Nat) : Nat := now / nsPerSec
 /-- Times are far from the uint32 horizon (year 2106). -/
 def noWrap (sp : Spec) (now : Nat) : Bool := decide (nowS now + sp.ttl < u32)
 
+/-- "The address" a login attempt comes from — ONE notion for counting the
+failures, for rejecting further attempts and for clearing the count: the TCP
+peer of the request.  Proxy headers do not change it (a client could put any
+address there; handleLogin deliberately ignores them for throttling). -/
+def attemptAddr (r : Req) : Nat := r.peer
+
 /-- One monitor step: is the observation allowed, and the next monitor state. -/
 def specStep (sp : Spec) (now : Nat) : Op → Obs → Bool × Spec
-  | .login addr good _, .login r =>
+  | .login req good _, .login r =>
+    let addr := attemptAddr req
     let rej := mustReject sp addr now
     let fs := counted sp addr now
     match r with
